@@ -10,6 +10,10 @@ class C11(Spec):
         "C11.state_rollback_exact",
         "C11.group_all_or_fee",
         "C11.local_rollback_exact",
+        "C11.rollback_exact",
+        "C11.group_local_rollback_exact",
+        "C11.rollback_exact_block",
+        "C11.group_rollback_exact_block",
     )
     partial = ()
     refuted = ()
@@ -21,7 +25,10 @@ class C11(Spec):
         "a bisimulation). For local data (repaired LocalDB.Rollback, /repo c51e8d4) local_rollback_exact shows the same "
         "for every later sequence of local transactions (Get/Set/List), via a coherence invariant of LocalDB over the "
         "remote store that block execution maintains; the pre-repair Rollback is kept as rollbackOld with a "
-        "regression witness (S-C11). The model is "
+        "regression witness (S-C11). rollback_exact_block / group_rollback_exact_block state the property through "
+        "execBlock itself: after a failed transaction (group) every continuation of the block yields the same receipts "
+        "and observations as after the fee-only transaction (as from the post-fee state); the LocalDB hypotheses are "
+        "discharged from the initial state by initSt_lclean / execUnit_lclean. The model is "
         "tied to /repo by executing generated blocks (<= 12 programs incl. groups, write-then-fail, poor senders, "
         "panics) through the real executor module on a testnode and comparing receipts and every read of every "
         "transaction; the property predicate (later receipts/reads equal the run where the failed unit only paid its "
